@@ -77,6 +77,7 @@ func runC16(s *core.Sim, tier string) RunInfo {
 			Sample: map[string]any{"chain": fmt.Sprintf("first=%d length=%d shape=%s age=%v", first, length, shape, total), "cycles": hist}}
 	}
 	defer w.teardown()
+	w.configureDisk()
 	if err := w.OpenStore(store.Parameters{WriteBatchSize: core.Pick(s.Tape, "batch", sizeKnob), StoreCacheSize: 64, IndexCacheSize: 64}); err != nil {
 		s.Aborted = "store start: " + err.Error()
 		return info()
